@@ -163,6 +163,22 @@ Definition f_asm_block_position (m : Z) : res out :=
   let* _e := asm_block_positions p [8; 8] in
   let* r := write_at db p 16 in with_label db (snd r) (fst r).
 
+(* ---- #bankdef field combinations (tools/c19_families.bank_combo_program):
+   bank a { #addr 0, [#size m + 16], #outp (0 | m), [#fill] } / #d8 1 / [#addr m | #res m | #align m] / #d8 2 / x: *)
+Definition f_bank_combo (sized far_outp fill : bool) (place : nat) (m : Z) : res out :=
+  let* b := guard_bankdef MB (mkSrc None None z0 (if sized then Some (m + 16)%Z else None) None
+                                    (Some (if far_outp then m else 0%Z)) fill) in
+  let* wf := guard_fill MB b in
+  let* r1 := write_at b 0 8 in
+  let* p := match place with
+            | 0%nat => Ok (snd r1)
+            | 1%nat => guard_addr_position MB b m
+            | 2%nat => res_at b (snd r1) m
+            | _ => guard_align_position MB b (snd r1) m
+            end in
+  let* r2 := write_at b p 8 in
+  with_label b (snd r2) (N.max wf (N.max (fst r1) (fst r2))).
+
 (* ---- inclusion ranges: f.bin = 16 bytes, f.txt = 16 binary digits, h.txt = 16 hex digits *)
 Definition inc_bytes : list N := repeat 0 16.
 Definition inc_chars : list N := repeat 49 16.     (* '1' *)
@@ -183,10 +199,15 @@ Definition d_paren (n : nat) := parse_top PLIMIT (nest_paren n).
 Definition d_unary (n : nat) := parse_top PLIMIT (nest_unary n).
 Definition d_chain (n : nat) := parse_top PLIMIT (SChain (leaves (S n))).
 Definition d_chain_eval (n : nat) : Z := eval_recursion_depth (SChain (leaves (S n))).
-Definition d_asm_nest (n : nat) := parse_top PLIMIT (nest_asm n).
+Definition d_asm_nest (n : nat) := parse_lines PLIMIT [nest_asm n].
+(* alternating nesting: the cycle of construct codes (see Limits.build) repeated `rounds` times, as the lines of a file *)
+Definition d_mixed (cycle : list nat) (rounds : nat) := parse_lines PLIMIT [build (cycle_codes cycle rounds)].
 Definition d_if (n : nat) := parse_file_line PLIMIT (nest_if n).
 Definition d_elif (n : nat) := parse_file_line PLIMIT (elif_chain n).
 (* `#d8 f(f(..f(1)))` has no deep evaluation; `#d8 f0(n)` with f(x) => x == 0 ? 0 : f(x - 1) makes n + 1 nested calls *)
 Definition d_fn_calls (n : nat) := eval_directive ELIMIT (call_chain n).
 (* j0 => asm { j1 }, ..., j(n-1) => asm { jn }, jn => 0x11, line `j0`: n nested asm blocks under an instruction *)
 Definition d_asm_calls (n : nat) := eval_instruction ELIMIT (asm_chain n).
+(* jk => gk(), #fn gk() => asm { j(k+1) }: rule -> function call -> asm block -> rule ..., n rounds *)
+Fixpoint mix_calls (n : nat) : ev := match n with O => VLeaf | S k => VCall (VAsm [mix_calls k]) end.
+Definition d_mixed_calls (n : nat) := eval_instruction ELIMIT (mix_calls n).
